@@ -13,16 +13,20 @@
   into (`false`); `Untouched t p` — `p` is not a path of the incoming tree (not a prefix of a
   visited path) and does not lie at or below a written path.
 
-  Outside the model (objects are trees here): aliasing. `incoming_unmodified` — the incoming
-  mapping is an immutable value of the model, so "the incoming mapping is left unmodified" cannot
-  even be stated here; it is checked by the correspondence harness on the real objects (deep
-  snapshot before/after, incl. ruamel CommentedMap inputs), as is the identity of untouched
-  values. The two known ways in which the real code breaks C10 through aliasing (a `{k:ff}` result
-  extended in place; the step's incoming mapping being a context value that names itself) are
-  reported by the check's alias streams.
+  Tree level (objects are trees): the incoming mapping is an immutable value there, so "the incoming
+  mapping is left unmodified" cannot even be stated. It is stated and proved at HEAP level (last
+  section, `MergeHeap` of `PypyrModel/Merge.lean`: context, incoming mappings and everything they hold
+  are objects; merge writes to objects): `incoming_unmodified` — over a whole SEQUENCE of merge /
+  set_defaults operations on one context no object of any incoming mapping is written, provided the
+  context shares no list / dict object with them to begin with — because what formatting hands back
+  never is a container of the formatted value (`formatted_value_is_fresh`). The two known ways in which
+  the real code breaks C10 through aliasing (a `{k:ff}` result extended in place: both objects belong to
+  the context; the step's incoming mapping being a context value that names itself: the separation
+  hypothesis fails) are reported by the check's alias streams.
 -/
 import PypyrModel.Merge
 import Props.Lemmas.C10_Merge
+import Props.Lemmas.C10_Heap
 import Props.C09
 
 namespace Pypyr.C10
@@ -285,6 +289,208 @@ theorem runStep_requires_value (useDefaults : Bool) (fuel : Nat) (root : Pairs)
   rw [hk]
   exact ⟨_, rfl, rfl⟩
 
+/-! ## Sequences of operations (tree level) -/
+
+/-- A step run with its input mapping `a` (`in:` argument) sees exactly `a` under its key. -/
+theorem withInput_get (root : Pairs) (d : Bool) (a : Val) :
+    dictGet? (withInput root d (some a)) (.str (stepKey d)) = some a := by
+  simp [withInput, dictGet?_dictSet_eq]
+
+/-- **The steps are `Context.merge` / `set_defaults` of the mapping under their key, nothing else**:
+    when a step op succeeds there is a trace `t` with which the very same `merge` / `setDefaults` call
+    on the context (holding the input mapping under the step's key) returns the step's result — each
+    incoming key and value formatted once, against the context as merged so far, exactly as in
+    `mergeItem`. -/
+theorem runOp_step_is_merge (fuel : Nat) (root root' : Pairs) (d : Bool) (a : Val)
+    (h : runOp fuel root (.step d (some a)) = .ok root') :
+    a ≠ .none ∧ ∃ t, (if d then setDefaults fuel (withInput root d (some a)) a
+                        else merge fuel (withInput root d (some a)) a) = .ok (root', t) := by
+  simp only [runOp] at h
+  obtain ⟨add, t, h1, h2, h3⟩ := runStep_ok d fuel _ root' h
+  have hk : (if d then "defaults" else "contextMerge") = stepKey d := by cases d <;> rfl
+  rw [hk, withInput_get] at h1
+  cases h1
+  exact ⟨h2, t, h3⟩
+
+/-- A sequence of `set_defaults` calls never changes a value that existed when the sequence started
+    (even `None`); mappings stay mappings. -/
+theorem runOps_defaults_never_overwrite (fuel : Nat) :
+    ∀ (adds : List Val) (i : Nat) (root root' : Pairs),
+      runOpsFrom fuel i root (adds.map Op.defaults) = .ok root' →
+      ∀ p x, p ≠ [] → getPath root p = some x →
+        ∃ x', getPath root' p = some x' ∧ (isDict x = false → x' = x) ∧ (isDict x = true → isDict x' = true)
+  | [], i, root, root', h => by
+    simp only [List.map_nil, runOpsFrom] at h
+    cases h
+    intro p x _ hx
+    exact ⟨x, hx, fun _ => rfl, fun hd => hd⟩
+  | a :: rest, i, root, root', h => by
+    simp only [List.map_cons, runOpsFrom] at h
+    split at h
+    · cases h
+    · rename_i root1 h1
+      intro p x hp hx
+      simp only [runOp] at h1
+      cases hsd : setDefaults fuel root a with
+      | error e => rw [hsd] at h1; cases h1
+      | ok rt =>
+        obtain ⟨r1, t⟩ := rt
+        rw [hsd] at h1
+        cases h1
+        obtain ⟨x1, hx1, hk1, hd1⟩ := defaults_never_overwrites fuel root a r1 t hsd p x hp hx
+        obtain ⟨x2, hx2, hk2, hd2⟩ := runOps_defaults_never_overwrite fuel rest (i + 1) r1 root' h p x1 hp hx1
+        refine ⟨x2, hx2, ?_, ?_⟩
+        · intro hnd
+          have e1 := hk1 hnd
+          subst e1
+          exact hk2 hnd
+        · intro hd; exact hd2 (hd1 hd)
+
+/-! ## Heap level: the incoming mapping is left unmodified — also by every LATER operation
+
+  `MergeHeap` (`PypyrModel/Merge.lean`): the context is the dict object `root` of a heap, an incoming
+  mapping is an object `add`, `Context.merge` writes to objects. `P` below is the set of objects the
+  context owns (`C10H.FInv`: closed under "member of", contains every atom — leaf, bytearray, str —
+  and everything allocated from now on); `A` is ANY set of addresses that existed at the start and
+  shares no list / dict object with `P` — in particular all objects of all incoming mappings. -/
+
+section heap
+open Pypyr.FmtHeap Pypyr.MergeHeap Pypyr.C10H
+
+/-- **A formatted value never is, nor holds, a container of the value that was formatted**
+    (`formatted_value_is_fresh`): whatever `get_formatted_value` returns lies in `P`, and every object
+    it allocated holds only objects of `P` — where `P` is any set that contains the context's objects,
+    all atoms, and all new addresses. The formatted value may share atoms (numbers, None, bytes,
+    bytearray, brace-free strings) with its input, and context objects through `{k:ff}` / `!py`; a
+    list, dict, set or tuple of the input is never handed back. -/
+theorem formatted_value_is_fresh (P : Ref → Prop) (fuel : Nat) (h h' : Heap) (root x r : Ref)
+    (inv : FInv P h) (hroot : P root) (hf : fmtAt fuel h root x = .ok (r, h')) :
+    P r ∧ FInv P h' ∧ (∀ (i : Nat) (c : Cell), h[i]? = some c → h'[i]? = some c) := by
+  unfold fmtAt at hf
+  have ⟨hp, inv'⟩ := fmtHeap_fresh (hctxOf_CtxP inv hroot) inv hf
+  exact ⟨hp, inv', fun i c hc => (fmtHeap_ext hf).get hc⟩
+
+/-- `Context.merge` keeps the ownership invariant and writes no protected address. -/
+theorem mergeH_inv (P A : Ref → Prop) (h0 : Heap) (fuel : Nat) (root add : Ref) (h h' : Heap)
+    (m : MInv P A h0 h) (hroot : P root) (hm : mergeH fuel root add h = .ok h') : MInv P A h0 h' :=
+  mergeRecH_inv hroot fuel root add h h' m hroot hm
+
+/-- `Context.set_defaults` keeps the ownership invariant and writes no protected address. -/
+theorem setDefaultsH_inv (P A : Ref → Prop) (h0 : Heap) (fuel : Nat) (root add : Ref) (h h' : Heap)
+    (m : MInv P A h0 h) (hroot : P root) (hm : setDefaultsH fuel root add h = .ok h') : MInv P A h0 h' :=
+  defaultsRecH_inv hroot fuel root add h h' m hroot hm
+
+/-- `Context.merge` / `Context.set_defaults` called directly (not through a step, which first stores
+    its input mapping IN the context). -/
+def isPlain : OpH → Bool
+  | .merge _ | .defaults _ => true
+  | .step _ _ => false
+
+theorem runOpsH_inv (P A : Ref → Prop) (h0 : Heap) (fuel : Nat) (root : Ref) (hroot : P root) :
+    ∀ (ops : List OpH) (i : Nat) (h h' : Heap), (∀ op ∈ ops, isPlain op = true) → MInv P A h0 h →
+      runOpsHFrom fuel root i h ops = .ok h' → MInv P A h0 h'
+  | [], i, h, h', _, m, hr => by simp only [runOpsHFrom] at hr; cases hr; exact m
+  | op :: rest, i, h, h', hp, m, hr => by
+    simp only [runOpsHFrom] at hr
+    split at hr
+    · cases hr
+    · rename_i h1 h1r
+      have m1 : MInv P A h0 h1 := by
+        cases op with
+        | merge a => exact mergeH_inv P A h0 fuel root a h h1 m hroot h1r
+        | defaults a => exact setDefaultsH_inv P A h0 fuel root a h h1 m hroot h1r
+        | step d a => have := hp (.step d a) (by simp); simp [isPlain] at this
+      exact runOpsH_inv P A h0 fuel root hroot rest (i + 1) h1 h' (fun o ho => hp o (by simp [ho])) m1 hr
+
+/-- **`incoming_unmodified`, for sequences.** Run any sequence of `merge` / `set_defaults` operations
+    on the context object `root`. Let `S0` be a set of objects of the initial heap `h0` that contains the
+    context, is closed under "member of" and contains every atom; let `A` be any set of addresses of
+    `h0` that shares no list / dict object with `S0` (for instance: every object of every incoming
+    mapping of the sequence). Then after the WHOLE sequence every address of `A` holds exactly what it
+    held before: an incoming mapping is modified neither by its own operation nor by any later one —
+    whatever an operation stored in the context is an object the context owns, never a list / dict of
+    an incoming mapping, however empty. -/
+theorem incoming_unmodified (fuel : Nat) (root : Ref) (h0 h' : Heap) (ops : List OpH) (S0 A : Ref → Prop)
+    (hplain : ∀ op ∈ ops, isPlain op = true) (hroot : S0 root)
+    (hclosed : ∀ x c, S0 x → h0[x]? = some c → ∀ y ∈ children c, S0 y)
+    (hatoms : ∀ x c, h0[x]? = some c → isAtomCell c = true → S0 x)
+    (hsic : SicOk h0) (hA : ∀ x, A x → x < h0.length)
+    (hsep : ∀ x c, S0 x → A x → h0[x]? = some c → isMutCell c = false)
+    (hrun : runOpsH fuel root h0 ops = .ok h') :
+    ∀ x, A x → h'[x]? = h0[x]? := by
+  let P : Ref → Prop := fun x => S0 x ∨ h0.length ≤ x
+  have m0 : MInv P A h0 h0 := by
+    refine ⟨⟨?_, ?_, hsic, fun x hx => Or.inr hx⟩, ?_, fun _ _ => rfl, hA⟩
+    · intro x c hp hx y hy
+      rcases hp with hp | hp
+      · exact Or.inl (hclosed x c hp hx y hy)
+      · rw [List.getElem?_eq_none hp] at hx; cases hx
+    · intro x c hx ha; exact Or.inl (hatoms x c hx ha)
+    · intro x c hp ha hx
+      rcases hp with hp | hp
+      · exact hsep x c hp ha hx
+      · exact absurd (Nat.lt_of_lt_of_le (hA x ha) hp) (Nat.lt_irrefl _)
+  exact (runOpsH_inv P A h0 fuel root (Or.inl hroot) ops 0 h0 h' hplain m0 hrun).frozen
+
+/-- **`incoming_unmodified` in the property's words**: under the hypotheses of `incoming_unmodified`,
+    with `A` closed under "member of" (all objects of the incoming mappings), every incoming mapping is
+    deep-equal before and after the whole sequence. -/
+theorem incoming_deep_equal (fuel : Nat) (root : Ref) (h0 h' : Heap) (ops : List OpH) (S0 A : Ref → Prop)
+    (hplain : ∀ op ∈ ops, isPlain op = true) (hroot : S0 root)
+    (hclosed : ∀ x c, S0 x → h0[x]? = some c → ∀ y ∈ children c, S0 y)
+    (hatoms : ∀ x c, h0[x]? = some c → isAtomCell c = true → S0 x)
+    (hsic : SicOk h0) (hA : ∀ x, A x → x < h0.length)
+    (hAcl : ∀ x c, A x → h0[x]? = some c → ∀ y ∈ children c, A y)
+    (hsep : ∀ x c, S0 x → A x → h0[x]? = some c → isMutCell c = false)
+    (hrun : runOpsH fuel root h0 ops = .ok h') :
+    ∀ (f : Nat) (a : Ref), A a → readVal f h' a = readVal f h0 a :=
+  readVal_of_frozen
+    (incoming_unmodified fuel root h0 h' ops S0 A hplain hroot hclosed hatoms hsic hA hsep hrun) hAcl
+
+/- A concrete sequence (the accumulator pattern). Heap: 0 'name', 1 'job1', 2 the context {name: job1};
+   3 'results', 4 the EMPTY list [], 5 the first incoming mapping {results: []}; 6 ['r-{name}'] (7 its
+   member), 8 the second incoming mapping {results: [..]}. After merge(5); merge(8) the context's
+   `results` is a list the context owns holding 'r-job1', and object 4 is still the empty list. -/
+def accHeap : Heap :=
+  [.str "name", .str "job1", .dict 0 [(0, 1)], .str "results", .list 0 [], .dict 0 [(3, 4)],
+   .list 0 [7], .str "r-{name}", .dict 0 [(3, 6)]]
+
+example : (match runOpsH 8 2 accHeap [.merge 5, .merge 8] with
+    | .ok h => (match h[4]?, h[5]? with
+          | some (Cell.list 0 []), some (Cell.dict 0 [(3, 4)]) => true
+          | _, _ => false) &&
+        (match h[2]? with
+         | some (Cell.dict 0 [(0, 1), (3, r)]) => r ≥ 9 &&
+            (match h[r]? with | some (Cell.list 0 [s]) => deepVal h s == some (.str "r-job1") | _ => false)
+         | _ => false)
+    | .error _ => false) = true := by decide +kernel
+
+/-- The hypotheses of `incoming_unmodified` are satisfiable on that heap: `S0` = the context's objects
+    and the atoms, `A` = the objects of both incoming mappings. -/
+example : ∀ h', runOpsH 8 2 accHeap [.merge 5, .merge 8] = .ok h' →
+    ∀ x, x ∈ [3, 4, 5, 6, 7, 8] → h'[x]? = accHeap[x]? := by
+  intro h' hrun
+  refine incoming_unmodified 8 2 accHeap h' [.merge 5, .merge 8] (fun x => x ∈ [0, 1, 2, 3, 7])
+    (fun x => x ∈ [3, 4, 5, 6, 7, 8]) (by simp [isPlain]) (by simp) ?_ ?_ ?_ ?_ ?_ hrun
+  · intro x c hx hc y hy
+    simp only [List.mem_cons, List.not_mem_nil, or_false] at hx
+    rcases hx with rfl | rfl | rfl | rfl | rfl <;> simp [accHeap] at hc <;> subst hc <;> simp [children] at hy
+    rcases hy with rfl | rfl <;> simp
+  · intro x c hc ha
+    rcases lt9 x (getElem?_lt hc) with rfl | rfl | rfl | rfl | rfl | rfl | rfl | rfl | rfl <;>
+      simp [accHeap] at hc <;> subst hc <;> simp [isAtomCell] at ha <;> simp
+  · intro x p hx
+    rcases lt9 x (getElem?_lt hx) with rfl | rfl | rfl | rfl | rfl | rfl | rfl | rfl | rfl <;>
+      simp [accHeap] at hx
+  · intro x hx
+    simp only [List.mem_cons, List.not_mem_nil, or_false] at hx
+    rcases hx with rfl | rfl | rfl | rfl | rfl | rfl <;> simp [accHeap]
+  · intro x c hs ha hc
+    simp only [List.mem_cons, List.not_mem_nil, or_false] at hs ha
+    rcases hs with rfl | rfl | rfl | rfl | rfl <;> simp at ha <;> simp [accHeap] at hc <;> subst hc <;> rfl
+
+end heap
+
 /-! ## Concrete runs (the docstring example of `pypyr.steps.contextmerge` and of `default`) -/
 
 def docCtx : Pairs :=
@@ -307,6 +513,12 @@ example : (match setDefaults 8 docCtx docAdd with
         (.str "key3", .dict [(.str "k31", .str "value31"), (.str "k32", .str "value32"), (.str "k33", .str "value33")]),
         (.str "none", .none), (.str "key4", .str "bbb_value2_yyy")]
         && t == [([.str "key3"], false), ([.str "key3", .str "k33"], true), ([.str "key4"], true)]
+    | .error _ => false) = true := by decide +kernel
+
+/-- a sequence on the docstring context: defaults, then merge, then the default step -/
+example : (match runOps 8 docCtx [.defaults docAdd, .merge docAdd, .step true (some docAdd)] with
+    | .ok r => dictGet? r (.str "key4") == some (.str "bbb_aaa_value1_zzz_yyy") &&
+               dictGet? r (.str "none") == some (.str "x") && (dictGet? r (.str "defaults")).isSome
     | .error _ => false) = true := by decide +kernel
 
 end Pypyr.C10
